@@ -18,6 +18,7 @@ func init() {
 			ID: "C08",
 			Explanation: "Reset completeness, a necessary condition of 'a reset leaves no trace of earlier generations' that is a pure set comparison: for every carrier of per-generation state (registration service, gate, rapid context, shutdown context, interop server, rendering service, the application-context key space, package-level variables) the set of fields/keys/variables written after construction by any function of the program, minus those re-initialised on the reset path with the constructor's initial value, minus a table of reasoned exemptions, must be empty; each missing element is a concrete history distinguishing a reset instance from a fresh one. " +
 				"Second clause: the events watcher may cancel flows only for an exit it classified as unexpected while not shutting down (tested before the exit is handed to the shutdown bookkeeping), so a late notification about an old process cannot cancel the next generation's barriers. Agents and runtime objects are shown to be dropped wholesale (the only long-lived references are the registration maps/field and the per-shutdown map). " +
+				"Added after the blind rounds: re-initialisation in a reset root is unconditional; the invoke goroutine writes no generation state after the blocking teardown call. " +
 				"NOT decided: equivalence of observable traces; the orders of the three racing steps beyond this structural precondition.",
 			RuleText:    "one obligation per (carrier x field written after construction), per application-context key stored anywhere, per package-level variable written outside init, per reference-holding field; plus the watcher guard",
 			Assumptions: append([]string{"a field is 'written' when a store, map update, delete, or a call of a receiver-mutating method on the field's address is found in any repository function; mutation through aliases handed to other packages' code is not tracked"}, trusted...),
